@@ -28,7 +28,7 @@ fn level(t: Tier) -> Level {
         assumptions: vec![
             "oracle: join() of the reader thread is Ok(Ok(())), the run ends within the 20 s watchdog (monotonic clock), and the sentinel line appended after the hostile lines has produced its row".into(),
             "a failing batch is bisected to the single line that causes it; the violation is keyed by that line".into(),
-            "option values: flags in all combinations, -u in {-1,0,3}, -d in {1,60} on the 40-line stream, and -d in {-9,-1,0,1,60} x -u in {-7,-1,3} on a 600-frame stream; astronomically large -u (overflows chrono::Duration before the first line) is outside the stated domain".into(),
+            "option values: flags in all combinations, -u in {-1,0,3}, -d in {1,60} on the 40-line stream, and -d in {i64::MIN,-9,-1,0,1,60,i64::MAX} x -u in {-7,-1,3} on a 600-frame stream; astronomically large -u (overflows chrono::Duration before the first line) is outside the stated domain".into(),
         ],
     }
 }
@@ -362,6 +362,15 @@ fn byte_level_lines() -> Vec<Vec<u8>> {
             v.push(l);
         }
     }
+    // lines whose length sits on, just below and just above typical buffer sizes
+    for p in [4096usize, 8192, 16384, 32768, 65536, 131072] {
+        for d in [-2i64, -1, 0, 1] {
+            v.push(vec![b'z'; (p as i64 + d) as usize]);
+            let mut l = vec![0xFFu8; (p as i64 + d) as usize];
+            l.push(b'\r');
+            v.push(l);
+        }
+    }
     // runs of invalid bytes behind 0..3 ASCII bytes (every alignment of the replacement characters)
     for pad in 0..4usize {
         for n in [30usize, 64, 90, 128, 200, 255, 256, 257, 1024] {
@@ -656,7 +665,7 @@ fn run(ctx: &mut Ctx) {
             long.push(match k % 3 { 0 => frames::df11(5, a, 0), 1 => frames::df4(a, frames::ac13_for_alt(100 * (k as i32 % 300))), _ => frames::df17(5, a, frames::me_velocity(&Vel { st: 1, vew: 1 + k % 700, vns: 5, vr: 1 + k % 100, ..Default::default() })) }.hex().into_bytes());
         }
         let mut k = 0u64;
-        for d in ["-1", "0", "1", "60", "-9"] {
+        for d in ["-1", "0", "1", "60", "-9", "9223372036854775807", "-9223372036854775808"] {
             for u in ["--update=-1", "--update=3", "--update=-7"] {
                 for upd in [false, true] {
                     for i in ["Q", ""] {
